@@ -992,3 +992,35 @@ Lemma shared_clone_not_independent :
   map (observe_node w_hist_doc) (value_run w_hist_doc w_history) /\
   length (value_run w_hist_doc w_history) = 3.
 Proof. split; [vm_compute; discriminate | split; vm_compute; reflexivity]. Qed.
+
+(* ------------------------------------------------------------------------------------------------ *)
+(* JSON pointer array indices (repo fix 5f4626e6, RFC 6901)                                           *)
+Lemma digits_val_all_digits s : forall acc n, digits_val s acc = Some n -> forallb is_digit s = true.
+Proof.
+  induction s as [|c r IH]; intros acc n H; cbn [digits_val forallb] in *; [reflexivity|].
+  destruct (is_digit c); [|discriminate]. cbn [andb]. exact (IH _ _ H).
+Qed.
+
+Lemma parse_index_spec s z :
+  parse_index s = Some z ->
+  s <> [] /\ forallb is_digit s = true /\ (0 <= z)%Z /\ (s = [48%N] \/ hd 0%N s <> 48%N).
+Proof.
+  destruct s as [|c r]; cbn [parse_index]; [discriminate|].
+  destruct (N.eqb c 48) eqn:E.
+  - destruct r; [|discriminate]. intros H. inversion H; subst. apply N.eqb_eq in E. subst c.
+    repeat split; try discriminate; try reflexivity. left; reflexivity.
+  - destruct (digits_val (c :: r) 0) as [n|] eqn:D; cbn [option_map]; [|discriminate].
+    intros H. inversion H; subst. split; [discriminate|]. split; [exact (digits_val_all_digits _ _ _ D)|].
+    split; [apply N2Z.is_nonneg|]. right. cbn [hd]. apply N.eqb_neq. exact E.
+Qed.
+
+(* the rule of the code and the int() rule it replaced differ: /tags/-1 and /tags/01 *)
+Lemma pointer_rule_differs :
+  let doc := JObj [(s_tags, JArr [JStr [117]%N; JStr [100]%N])] in
+  let p_minus1 := [47;116;97;103;115;47;45;49]%N in
+  let p_01 := [47;116;97;103;115;47;48;49]%N in
+  let p_1 := [47;116;97;103;115;47;49]%N in
+  resolve_pointer doc p_minus1 = None /\ resolve_pointer_legacy doc p_minus1 = Some (JStr [100]%N) /\
+  resolve_pointer doc p_01 = None /\ resolve_pointer_legacy doc p_01 = Some (JStr [100]%N) /\
+  resolve_pointer doc p_1 = Some (JStr [100]%N) /\ resolve_pointer_legacy doc p_1 = Some (JStr [100]%N).
+Proof. vm_compute. repeat split. Qed.
